@@ -12,6 +12,7 @@ pub mod c01;
 pub mod c05;
 pub mod c06;
 pub mod c07;
+pub mod c12;
 pub mod c03;
 pub mod c04;
 
@@ -51,6 +52,9 @@ pub fn run(a: &Args) -> i32 {
         "c05" => c05::run(&env),
         "c06" => c06::run(&env),
         "c07" => c07::run(&env),
+        "c12" => c12::run(&env),
+        "c13" => c12::run_c13(&env),
+        "c14" => c12::run_c14(&env),
         "c04" => c04::run(&env),
         x => { eprintln!("unknown stream {}", x); return 2; }
     };
